@@ -54,6 +54,7 @@ Definition apply_body (e:evalr) (sp:span) (argv:list value) : Comp value :=
       | [VInt i], VList l | [VInt i], VErr _ l => match py_nth l i with Some v => Ret v | None => raise c_range sp end
       | [VInt i], VStr s => match py_nth s i with Some c => Ret (VStr [c]) | None => raise c_range sp end
       | [VInt i], VBytes s => match py_nth s i with Some c => Ret (VBytes [c]) | None => raise c_range sp end
+      | [VInt i], VComplex re im => if i =? 0 then Ret (VFloat re) else if i =? 1 then Ret (VFloat im) else raise c_value sp
       | _, _ => raise c_type sp end
   | EFun (FClo f) =>
       AllocBody f argv (fun t => Ret (VThunk t))
@@ -88,6 +89,7 @@ Definition format_body (v:value) (flag:bool) : Comp value :=
   | VErr _ l => ss <- map_call (fun i => PFormat i flag) l ;; Ret (VStr (s_exc_open ++ join s_sep (strs_of ss) ++ s_exc_close))
   | VInt n => Ret (VStr (str_of_int n))
   | VFloat f => Ret (VStr (show_float f))
+  | VComplex re im => Ret (VStr (show_complex re im))
   | VBool b => Ret (VStr (str_of_bool b))
   | VStr s => Ret (VStr ([39%N] ++ s ++ [39%N]))
   | VBytes s => Ret (VStr ([98%N; 39%N] ++ flat_map (fun b => [92%N; 120%N; hexd (N.div b 16); hexd (N.modulo b 16)]) s ++ [39%N]))
